@@ -1,8 +1,10 @@
 (* C14 -- property theorems only.  Statements are about Model/WarmStart.v.
    Ring regime: F is ANY commutative ring (ring_theory hypothesis), any order, any rank, any sizes.
-   Skeleton: M (a factor) and W (the weights) are arbitrary types; upd / stop / normf are arbitrary
-   functions of the whole state, so the statements hold for every numerical update rule, every
-   convergence / callback decision sequence and every iteration budget. *)
+   Skeleton: M (a factor), W (the weights) and X (everything else the loop carries: imputed tensor, error history,
+   sparse component, dual variables, line-search state) are arbitrary types; upd / stop / normf / post / ls_accept /
+   lsw / lsx are arbitrary functions of the whole state, so the statements hold for every numerical update rule, every
+   convergence / callback decision sequence, mask and sparsity setting and every iteration budget.  pre / pre_on is
+   parafac's orthogonalise hook, ls_on / lsf its line search. *)
 From Coq Require Import List Arith Bool Ring ZArith.
 From TLV Require Import Base.Shape Base.PyList Base.Tensor Base.BigSum Model.WarmStart Proofs.WarmStartProofs
   Proofs.WarmStartProofs2 Proofs.WarmStartTucker Proofs.WarmStartP2 Proofs.WarmStartEndToEnd.
@@ -93,46 +95,97 @@ Theorem C14_same_iterates : forall (F : Type) (rO rI : F) (radd rmul rsub : F ->
   forall (eqb : F -> F -> bool), (forall x y, eqb x y = true <-> x = y) ->
   forall (R : nat) (w : list F) (fs : list (matrix (F := F))), length w = R ->
   (forall row, In row (last fs []) -> length row = R) ->
-  forall upd stop normf normalize a n fixed budget tol,
-  let start := fun wf : list F * list (matrix (F := F)) => mkst (fst wf) (snd wf) in
-  run upd stop normf normalize a n fixed budget tol (start (init_cp rI rmul eqb R (Some (ones rI R)) (absorb_last rmul w fs)))
-  = run upd stop normf normalize a n fixed budget tol (start (init_cp rI rmul eqb R (Some w) fs)).
+  forall (X : Type) (x : X) upd stop normf normalize pre pre_on post ls_on ls_accept lsf lsw lsx a n fixed budget tol,
+  let start := fun wf : list F * list (matrix (F := F)) => mkst (fst wf) (snd wf) x in
+  run upd stop normf normalize pre pre_on post ls_on ls_accept lsf lsw lsx a n fixed budget tol
+      (start (init_cp rI rmul eqb R (Some (ones rI R)) (absorb_last rmul w fs)))
+  = run upd stop normf normalize pre pre_on post ls_on ls_accept lsf lsw lsx a n fixed budget tol
+      (start (init_cp rI rmul eqb R (Some w) fs)).
 Proof. exact same_iterates. Qed.
 Print Assumptions C14_same_iterates.
 
 (* (ii) zero budget returns the initialisation: every algorithm, every option *)
-Theorem C14_zero_budget : forall (M W : Type) upd stop normf normalize a n fixed tol (s : st M W),
-  run upd stop normf normalize a n fixed 0 tol s = Ok s.
+Theorem C14_zero_budget : forall (M W X : Type) upd stop normf normalize pre pre_on post ls_on ls_accept lsf lsw lsx
+  a n fixed tol (s : st M W X),
+  run upd stop normf normalize pre pre_on post ls_on ls_accept lsf lsw lsx a n fixed 0 tol s = Ok s.
 Proof. exact @run_zero_budget. Qed.
 Print Assumptions C14_zero_budget.
 
-(* (iii) fixed modes stay fixed (Leibniz equality of the factor), default normalisation *)
-Theorem C14_fixed_modes : forall (M W : Type) upd stop normf a n fixed budget tol (s s' : st M W) (d : M) (m : nat),
-  run upd stop normf false a n fixed budget tol s = Ok s' -> In m (eff_fixed a n fixed) ->
-  nth m (facs s') d = nth m (facs s) d.
+(* (iii) fixed modes stay fixed (Leibniz equality of the factor).  Default normalisation, orthogonalise off (the default);
+   mask / sparsity / error bookkeeping arbitrary; line search on or off with ANY candidate formula lsf that returns x for
+   (last, current) = (x, x) -- parafac's formula does, see C14_linesearch_candidate / C14_fixed_modes_linesearch *)
+Theorem C14_fixed_modes : forall (M W X : Type) upd stop normf pre post ls_on ls_accept lsf lsw lsx a n fixed budget tol
+  (s s' : st M W X) (d : M) (m : nat),
+  (has_hooks a = true -> forall it s x, lsf it s x x = x) ->
+  run upd stop normf false pre (fun _ => false) post ls_on ls_accept lsf lsw lsx a n fixed budget tol s = Ok s' ->
+  In m (eff_fixed a n fixed) -> nth m (facs s') d = nth m (facs s) d.
 Proof. exact @run_fixed. Qed.
 Print Assumptions C14_fixed_modes.
 
-Theorem C14_fixed_modes_user : forall (M W : Type) upd stop normf a n fixed budget tol (s s' : st M W) (d : M) (m : nat),
-  run upd stop normf false a n fixed budget tol s = Ok s' -> In m fixed -> (drops_last a = true -> m <> n - 1) ->
-  nth m (facs s') d = nth m (facs s) d.
+Theorem C14_fixed_modes_user : forall (M W X : Type) upd stop normf pre post ls_on ls_accept lsf lsw lsx a n fixed budget tol
+  (s s' : st M W X) (d : M) (m : nat),
+  (has_hooks a = true -> forall it s x, lsf it s x x = x) ->
+  run upd stop normf false pre (fun _ => false) post ls_on ls_accept lsf lsw lsx a n fixed budget tol s = Ok s' ->
+  In m fixed -> (drops_last a = true -> m <> n - 1) -> nth m (facs s') d = nth m (facs s) d.
 Proof. exact @run_fixed_user. Qed.
 Print Assumptions C14_fixed_modes_user.
 
+(* parafac's line-search candidate last + (cur - last) * jump, entrywise on matrices of any shape over any commutative
+   ring, is `last` when cur = last ... *)
+Theorem C14_linesearch_candidate : forall (F : Type) (rO rI : F) (radd rmul rsub : F -> F -> F) (ropp : F -> F),
+  ring_theory rO rI radd rmul rsub ropp (@eq F) ->
+  forall (jump : F) (A : list (list F)), ls_mat radd rsub rmul jump A A = A.
+Proof. exact ls_mat_same. Qed.
+Print Assumptions C14_linesearch_candidate.
+
+(* ... hence fixed modes survive parafac(linesearch=True) with every jump schedule and every accept decision (ring regime:
+   equality of values; in floating point x + (x - x) * jump returns +0.0 for an entry -0.0 and NaN for an infinite one) *)
+Theorem C14_fixed_modes_linesearch : forall (F : Type) (rO rI : F) (radd rmul rsub : F -> F -> F) (ropp : F -> F),
+  ring_theory rO rI radd rmul rsub ropp (@eq F) ->
+  forall (W X : Type) upd stop normf pre post ls_on ls_accept (jump : nat -> st (list (list F)) W X -> F) lsw lsx
+  a n fixed budget tol (s s' : st (list (list F)) W X) d m,
+  run upd stop normf false pre (fun _ => false) post ls_on ls_accept (fun it s => ls_mat radd rsub rmul (jump it s)) lsw lsx
+      a n fixed budget tol s = Ok s' ->
+  In m (eff_fixed a n fixed) -> nth m (facs s') d = nth m (facs s) d.
+Proof. exact fixed_modes_linesearch. Qed.
+Print Assumptions C14_fixed_modes_linesearch.
+
+(* orthogonalise: the hook rewrites EVERY factor before the sweep.  Fixed modes survive PROVIDED the hook leaves them
+   alone (hypothesis; the candidate repair build/fix_candidates/C14_orthogonalise_fixed_modes.diff makes it true) ... *)
+Theorem C14_fixed_modes_hooks_partial : forall (M W X : Type) upd stop normf pre pre_on post ls_on ls_accept lsf lsw lsx
+  a n fixed budget tol (s s' : st M W X) (d : M) (m : nat),
+  (has_hooks a = true -> forall it s, pre_on it = true -> nth m (facs (pre it s)) d = nth m (facs s) d) ->
+  (has_hooks a = true -> forall it s x, lsf it s x x = x) ->
+  run upd stop normf false pre pre_on post ls_on ls_accept lsf lsw lsx a n fixed budget tol s = Ok s' ->
+  In m (eff_fixed a n fixed) -> nth m (facs s') d = nth m (facs s) d.
+Proof. exact @run_fixed_hooks. Qed.
+Print Assumptions C14_fixed_modes_hooks_partial.
+
+(* ... and do not otherwise: parafac(orthogonalise=True, fixed_modes=[0]) returns the Q factor of the supplied one
+   (genuine defect, known finding) *)
+Theorem C14_orthogonalise_refuted : exists upd stop normf pre pre_on post ls_on ls_accept lsf lsw lsx (s s' : st nat unit unit),
+  run upd stop normf false pre pre_on post ls_on ls_accept lsf lsw lsx Parafac 2 [0] 1 true s = Ok s' /\
+  In 0 (eff_fixed Parafac 2 [0]) /\ (forall it s x, lsf it s x x = x) /\ nth 0 (facs s') 0 <> nth 0 (facs s) 0.
+Proof. exact orthogonalise_breaks_fixed. Qed.
+Print Assumptions C14_orthogonalise_refuted.
+
 (* end to end (initialiser + skeleton): a fixed mode other than the last is returned as the SUPPLIED array, whatever the
    weights of the initialisation, the algorithm, the update rule, the decisions and the budget *)
-Theorem C14_fixed_end_to_end : forall (F : Type) (rI : F) (rmul : F -> F -> F) (eqb : F -> F -> bool) upd stop normf
-  a n fixed budget tol R (w : option (list F)) (fs : list (matrix (F := F))) s' m d,
-  run upd stop normf false a n fixed budget tol (start (init_cp rI rmul eqb R w fs)) = Ok s' ->
+Theorem C14_fixed_end_to_end : forall (F : Type) (rI : F) (rmul : F -> F -> F) (eqb : F -> F -> bool) (X : Type)
+  upd stop normf pre pre_on post ls_on ls_accept lsf lsw lsx a n fixed budget tol R (w : option (list F))
+  (fs : list (matrix (F := F))) (x : X) s' m d,
+  (has_hooks a = true -> forall it s, pre_on it = true -> nth m (facs (pre it s)) d = nth m (facs s) d) ->
+  (has_hooks a = true -> forall it s x, lsf it s x x = x) ->
+  run upd stop normf false pre pre_on post ls_on ls_accept lsf lsw lsx a n fixed budget tol (start x (init_cp rI rmul eqb R w fs)) = Ok s' ->
   In m fixed -> (drops_last a = true -> m <> n - 1) -> m < length fs - 1 -> nth m (facs s') d = nth m fs d.
 Proof. exact @fixed_end_to_end. Qed.
 Print Assumptions C14_fixed_end_to_end.
 
 (* the last mode, which only non_negative_parafac_hals lets the caller fix, comes back with the weights absorbed:
    the supplied array for unit weights, supplied * diag(w) otherwise ... *)
-Theorem C14_hals_fixed_last_mode : forall (F : Type) (rI : F) (rmul : F -> F -> F) (eqb : F -> F -> bool) upd stop normf
-  n fixed budget tol R (w : list F) (fs : list (matrix (F := F))) s',
-  run upd stop normf false NNHals n fixed budget tol (start (init_cp rI rmul eqb R (Some w) fs)) = Ok s' ->
+Theorem C14_hals_fixed_last_mode : forall (F : Type) (rI : F) (rmul : F -> F -> F) (eqb : F -> F -> bool) (X : Type)
+  upd stop normf pre pre_on post ls_on ls_accept lsf lsw lsx n fixed budget tol R (w : list F) (fs : list (matrix (F := F))) (x : X) s',
+  run upd stop normf false pre pre_on post ls_on ls_accept lsf lsw lsx NNHals n fixed budget tol (start x (init_cp rI rmul eqb R (Some w) fs)) = Ok s' ->
   In (length fs - 1) fixed -> fs <> [] ->
   nth (length fs - 1) (facs s') [] =
   if all_ones rI eqb w then nth (length fs - 1) fs [] else scale_cols rmul (nth (length fs - 1) fs []) w.
@@ -141,8 +194,9 @@ Print Assumptions C14_hals_fixed_last_mode.
 
 (* ... so with non-unit weights it is NOT the supplied array (known finding; same tensor) *)
 Theorem C14_hals_fixed_last_refuted : exists (w : list Z) (fs : list (list (list Z))) s',
-  run (fun _ m s => nth m (facs s) []) (fun _ _ => false) (fun s => s) false NNHals 2 [1] 1 true
-      (start (init_cp 1%Z Z.mul Z.eqb 1 (Some w) fs)) = Ok s' /\ In 1 [1] /\
+  run (fun _ m s => (nth m (facs s) [], tt)) (fun _ _ => false) (fun s => s) false (fun _ s => s) (fun _ => false) (fun _ _ => tt)
+      (fun _ => false) (fun _ _ _ => false) (fun _ _ l c => c) (fun _ _ l c => c) (fun _ _ _ => tt) NNHals 2 [1] 1 true
+      (start tt (init_cp 1%Z Z.mul Z.eqb 1 (Some w) fs)) = Ok s' /\ In 1 [1] /\
   nth 1 (facs s') [] <> nth 1 fs [].
 Proof. exact hals_fixed_last_counterexample. Qed.
 Print Assumptions C14_hals_fixed_last_refuted.
@@ -151,15 +205,17 @@ Print Assumptions C14_hals_fixed_last_refuted.
 Theorem C14_zero_budget_end_to_end : forall (F : Type) (rO rI : F) (radd rmul rsub : F -> F -> F) (ropp : F -> F),
   ring_theory rO rI radd rmul rsub ropp (@eq F) ->
   forall (eqb : F -> F -> bool), (forall x y, eqb x y = true <-> x = y) ->
-  forall upd stop normf normalize a n fixed tol R (w : list F) (fs : list (matrix (F := F))) idx,
+  forall (X : Type) (x : X) upd stop normf normalize pre pre_on post ls_on ls_accept lsf lsw lsx a n fixed tol R (w : list F)
+    (fs : list (matrix (F := F))) idx,
   fs <> [] -> length w = R ->
-  exists s', run upd stop normf normalize a n fixed 0 tol (start (init_cp rI rmul eqb R (Some w) fs)) = Ok s' /\
+  exists s', run upd stop normf normalize pre pre_on post ls_on ls_accept lsf lsw lsx a n fixed 0 tol (start x (init_cp rI rmul eqb R (Some w) fs)) = Ok s' /\
     cp_entry rO rI radd rmul R (wts s') (facs s') idx = cp_entry rO rI radd rmul R w fs idx.
 Proof. exact zero_budget_end_to_end. Qed.
 Print Assumptions C14_zero_budget_end_to_end.
 
-Theorem C14_run_shape : forall (M W : Type) upd stop normf a n fixed budget tol (s s' : st M W),
-  run upd stop normf false a n fixed budget tol s = Ok s' -> length (facs s') = length (facs s) /\ wts s' = wts s.
+Theorem C14_run_shape : forall (M W X : Type) upd stop normf pre pre_on post ls_on ls_accept lsf lsw lsx a n fixed budget tol (s s' : st M W X),
+  (has_hooks a = true -> forall it s, pre_on it = true -> length (facs (pre it s)) = length (facs s)) ->
+  run upd stop normf false pre pre_on post ls_on ls_accept lsf lsw lsx a n fixed budget tol s = Ok s' -> length (facs s') = length (facs s).
 Proof. exact @run_shape. Qed.
 Print Assumptions C14_run_shape.
 
@@ -175,29 +231,30 @@ Proof. exact last_mode_updated. Qed.
 Print Assumptions C14_last_mode_rule.
 
 (* fixing every mode returns the initialisation: parafac's shortcut ... *)
-Theorem C14_all_fixed_shortcut : forall (M W : Type) upd stop normf a n budget tol (s : st M W),
-  shortcut a = true -> run upd stop normf false a n (seq 0 n) budget tol s = Ok s.
+Theorem C14_all_fixed_shortcut : forall (M W X : Type) upd stop normf pre pre_on post ls_on ls_accept lsf lsw lsx a n budget tol (s : st M W X),
+  shortcut a = true -> run upd stop normf false pre pre_on post ls_on ls_accept lsf lsw lsx a n (seq 0 n) budget tol s = Ok s.
 Proof. exact @run_all_fixed_shortcut. Qed.
 Print Assumptions C14_all_fixed_shortcut.
 
 (* ... the algorithms without a shortcut can be left without a mode to update only by a request that repeats the last
    mode; then, IF the call returns (it raises when it needs the last MTTKRP), it returns the initialisation ... *)
-Theorem C14_all_fixed_partial : forall (M W : Type) upd stop normf a n fixed budget tol (s s' : st M W),
-  (forall m, m < n -> In m (eff_fixed a n fixed)) ->
-  run upd stop normf false a n fixed budget tol s = Ok s' -> s' = s.
+Theorem C14_all_fixed_partial : forall (M W X : Type) upd stop normf pre pre_on post ls_on ls_accept lsf lsw lsx a n fixed budget tol (s s' : st M W X),
+  has_hooks a = false -> (forall m, m < n -> In m (eff_fixed a n fixed)) ->
+  run upd stop normf false pre pre_on post ls_on ls_accept lsf lsw lsx a n fixed budget tol s = Ok s' -> facs s' = facs s /\ wts s' = wts s.
 Proof. exact @run_nothing_to_update. Qed.
 Print Assumptions C14_all_fixed_partial.
 
 (* ... and non_negative_parafac_hals, the one variant a duplicate-free request can leave without a mode to update,
    returns the initialisation for every budget, tolerance and normalisation setting (repaired by commit c3946df) *)
-Theorem C14_hals_all_fixed : forall (M W : Type) upd stop normf normalize n fixed budget tol (s : st M W),
-  (forall m, m < n -> In m fixed) -> run upd stop normf normalize NNHals n fixed budget tol s = Ok s.
+Theorem C14_hals_all_fixed : forall (M W X : Type) upd stop normf normalize pre pre_on post ls_on ls_accept lsf lsw lsx n fixed budget tol (s : st M W X),
+  (forall m, m < n -> In m fixed) -> run upd stop normf normalize pre pre_on post ls_on ls_accept lsf lsw lsx NNHals n fixed budget tol s = Ok s.
 Proof. exact @hals_all_fixed_returns. Qed.
 Print Assumptions C14_hals_all_fixed.
 
 (* normalize_factors=True is outside the statement for a reason: it rewrites fixed factors too *)
-Theorem C14_fixed_modes_normalize_refuted : exists upd stop normf (s s' : st nat unit),
-  run upd stop normf true Parafac 2 [0] 1 true s = Ok s' /\ In 0 (eff_fixed Parafac 2 [0]) /\
+Theorem C14_fixed_modes_normalize_refuted : exists upd stop normf (s s' : st nat unit unit),
+  run upd stop normf true (fun _ s => s) (fun _ => false) (fun _ _ => tt) (fun _ => false) (fun _ _ _ => false)
+      (fun _ _ l c => c) (fun _ _ l c => c) (fun _ _ _ => tt) Parafac 2 [0] 1 true s = Ok s' /\ In 0 (eff_fixed Parafac 2 [0]) /\
   nth 0 (facs s') 0 <> nth 0 (facs s) 0.
 Proof. exact normalize_breaks_fixed. Qed.
 Print Assumptions C14_fixed_modes_normalize_refuted.
@@ -282,9 +339,9 @@ Proof. exact tucker_init_abs_counterexample. Qed.
 Print Assumptions C14_ntd_init_refuted.
 
 (* ... and a fixed mode of non_negative_tucker_hals returns |supplied factor| after any number of sweeps *)
-Theorem C14_ntd_fixed_factor : forall (F : Type) (fabs : F -> F) (W : Type) upd stop normf n fixed budget tol (w : W)
-  (fs : list (matrix (F := F))) s' m,
-  run upd stop normf false NTDHals n fixed budget tol (mkst w (map (abs_mat fabs) fs)) = Ok s' ->
+Theorem C14_ntd_fixed_factor : forall (F : Type) (fabs : F -> F) (W X : Type) upd stop normf pre pre_on post ls_on ls_accept lsf lsw lsx
+  n fixed budget tol (w : W) (x : X) (fs : list (matrix (F := F))) s' m,
+  run upd stop normf false pre pre_on post ls_on ls_accept lsf lsw lsx NTDHals n fixed budget tol (mkst w (map (abs_mat fabs) fs) x) = Ok s' ->
   In m fixed -> m <> n - 1 -> nth m (facs s') [] = abs_mat fabs (nth m fs []).
 Proof. exact @ntd_fixed_factor. Qed.
 Print Assumptions C14_ntd_fixed_factor.
@@ -324,6 +381,22 @@ Theorem C14_parafac2_same_iterates : forall (F : Type) (rO rI : F) (radd rmul rs
 Proof. exact p2_same_iterates. Qed.
 Print Assumptions C14_parafac2_same_iterates.
 
+(* the whole call: with a zero budget it returns the initialisation (normalised iff normalize_factors, commit 1c1a684), and for
+   default normalisation the absorbed and the weighted form of the initialisation give the same result for every positive budget *)
+Theorem C14_parafac2_run_zero_budget : forall (F : Type) (rI : F) (rmul : F -> F -> F) (PT : Type) upd stop normf normalize
+  (R : nat) (s : p2st F PT), p2_run rI rmul upd stop normf normalize R 0 s = if normalize then normf s else s.
+Proof. exact @p2_run_zero_budget. Qed.
+Print Assumptions C14_parafac2_run_zero_budget.
+
+Theorem C14_parafac2_run_same_iterates : forall (F : Type) (rO rI : F) (radd rmul rsub : F -> F -> F) (ropp : F -> F),
+  ring_theory rO rI radd rmul rsub ropp (@eq F) ->
+  forall (PT : Type) upd stop normf normalize (R : nat) (w : list F) (fs : list (matrix (F := F))) (P : PT) (budget : nat),
+  normalize = false -> length w = R -> (forall row, In row (nth 1 fs []) -> R <= length row) -> 0 < budget ->
+  p2_run rI rmul upd stop normf normalize R budget (mkp2 (ones rI R) (absorb_at rmul 1 w fs) P)
+  = p2_run rI rmul upd stop normf normalize R budget (mkp2 w fs P).
+Proof. exact p2_run_same_iterates. Qed.
+Print Assumptions C14_parafac2_run_same_iterates.
+
 (* initialisation: a Parafac2Tensor is taken as it is, a CP tensor becomes (w; A, R, C; [Q]*I) which represents it
    (contract of qr: Q R = B), and in both cases a decomposition of another rank is rejected *)
 Theorem C14_parafac2_init_p2_unchanged : forall (F : Type) (rI : F) qr (rank : nat) (w : list F)
@@ -356,19 +429,29 @@ Example C14_nonvacuous_absorb :
   init_cp 1%Z Z.mul Z.eqb 2 (Some [2; -3]%Z) fs = ([1;1]%Z, [[[1;2];[3;4]]; [[10;-18];[14;-24];[18;-30]]]%Z).
 Proof. vm_compute. repeat split. Qed.
 
+Definition ex_run (ortho : nat -> bool) (ls : nat -> bool) a n fixed budget tol :=
+  (* a factor records who touched it: it = assigned in sweep it, 100+it = orthogonalised, 200+it = line-search candidate taken *)
+  run (fun it m (s : st (list nat) unit unit) => (nth m (facs s) [] ++ [it], tt)) (fun _ _ => false) (fun s => s) false
+      (fun it s => mkst (wts s) (map (fun h => h ++ [100 + it]) (facs s)) tt) ortho (fun _ _ => tt)
+      ls (fun _ _ _ => true) (fun it _ l c => if list_eqb l c then l else c ++ [200 + it]) (fun _ _ l c => c) (fun _ _ _ => tt)
+      a n fixed budget tol (mkst tt (repeat [] n) tt).
+
 Example C14_nonvacuous_skeleton :
-  (* unfixed modes DO change: mode 1 fixed out of 3, two sweeps, the factor records who assigned it *)
-  run (fun it m (s : st (list nat) unit) => nth m (facs s) [] ++ [it]) (fun _ _ => false) (fun s => s) false
-      Parafac 3 [1] 2 true (mkst tt [[];[];[]]) = Ok (mkst tt [[0;1]; []; [0;1]]) /\
+  (* unfixed modes DO change: mode 1 fixed out of 3, two sweeps *)
+  ex_run (fun _ => false) (fun _ => false) Parafac 3 [1] 2 true = Ok (mkst tt [[0;1]; []; [0;1]] tt) /\
+  (* line search on in sweep 1: free modes take the candidate, the fixed one is untouched *)
+  ex_run (fun _ => false) (fun it => Nat.eqb it 1) Parafac 3 [1] 2 true = Ok (mkst tt [[0;1;201]; []; [0;1;201]] tt) /\
+  (* orthogonalise in sweep 0 touches the fixed mode too; the other algorithms have no such hook *)
+  ex_run (fun it => Nat.eqb it 0) (fun _ => false) Parafac 3 [1] 2 true = Ok (mkst tt [[100;0;1]; [100]; [100;0;1]] tt) /\
+  ex_run (fun it => Nat.eqb it 0) (fun _ => true) NNParafac 3 [1] 2 true = Ok (mkst tt [[0;1]; []; [0;1]] tt) /\
   modes_list Parafac 3 [0;2] = [1;2] /\ modes_list NNHals 3 [0;2] = [1] /\ modes_list Parafac 3 [2;2] = [0;1] /\
   (* every mode fixed: HALS-CP returns the start for a positive budget; a request repeating the last mode leaves
      constrained_parafac without a mode and it raises *)
-  run (fun it m (s : st (list nat) unit) => nth m (facs s) [] ++ [it]) (fun _ _ => false) (fun s => s) false
-      NNHals 2 [1;0] 3 true (mkst tt [[];[]]) = Ok (mkst tt [[];[]]) /\
-  run (fun it m (s : st (list nat) unit) => nth m (facs s) [] ++ [it]) (fun _ _ => false) (fun s => s) false
-      Constrained 2 [0;1;1] 1 true (mkst tt [[];[]]) = Err /\
+  ex_run (fun _ => false) (fun _ => false) NNHals 2 [1;0] 3 true = Ok (mkst tt [[];[]] tt) /\
+  ex_run (fun _ => false) (fun _ => false) Constrained 2 [0;1;1] 1 true = Err /\
   tucker_fixed_lists [1;0] [10;11] (fun _ free => map (fun x => x + 100) free) = Ok [10;11] /\
-  tucker_fixed_lists [2;0] [10;11;12;13] (fun _ free => map (fun x => x + 100) free) = Ok [10;111;12;113].
+  tucker_fixed_lists [2;0] [10;11;12;13] (fun _ free => map (fun x => x + 100) free) = Ok [10;111;12;113] /\
+  ls_mat Z.add Z.sub Z.mul 3%Z [[1; 2]; [3; 4]]%Z [[2; 2]; [1; 8]]%Z = [[4; 2]; [-3; 16]]%Z.
 Proof. vm_compute. repeat split. Qed.
 
 Example C14_nonvacuous_tucker :
